@@ -69,10 +69,14 @@ def run(ctx):
     ctx.log("swept %d conversions in %d programs; %d records to TLC; %d dropped" % (swept, nprog, len(obs), len(dropped)))
     limit = [d for d in dropped if "constexpr" in d[2] and "limit" in d[2]]
     real = [d for d in dropped if d not in limit]
-    if real:
-        ctx.model_drift("%d instances predicted to compile did not: %s" % (len(real), [(d[0]["S"], d[0]["T"], d[0]["N"], d[0]["D"], d[1]) for d in real][:4]))
-    if len(dropped) > 0.3 * len(ii + ff) * len(cfgs):
-        raise core.ToolError("too many instances failed to compile: %s" % (dropped[0][2],))
+    # an instance the specification predicts to compile (the conversion itself does) whose checkers / conversion are rejected inside Au:
+    # the <T> checkers must be usable for every pair of arithmetic reps
+    for d in real[:40]:
+        if core.first_error_in_au(d[2]):
+            ctx.violation({"S": d[0]["S"], "T": d[0]["T"], "N": d[0]["N"], "D": d[0]["D"], "kind": "rejected"},
+                          "the <%s> checkers / conversion of a %s quantity by %s/%s do not compile [%s]: %s" % (d[0]["T"], d[0]["S"], d[0]["N"], d[0]["D"], d[1], d[2][:300]), detail=d[2])
+        else:
+            raise core.ToolError("cast harness does not compile (generator bug?): %s" % d[2][:600])
     nval, bad = ctx.tlc_batch_validate("Trace_Cast.tla", obs, name="cast", shards=core.NCPU)
     badkeys = set()
     for b in bad:
